@@ -660,6 +660,14 @@ func (w *World) verifyCase(ct *Contract, caseIdx int) (res *FuncResult) {
 	for _, p := range fn.FreeVars {
 		v := c.freshVal("fv."+p.Name(), p.Type())
 		f.assumeInput(v)
+		if v.K == KScalar && v.T.Sort == SRef {
+			// a captured variable is the address of a live variable, never nil
+			c.Assume(TTrue, Neq(v.T, TNull), "captured variable "+p.Name()+" is live")
+			if st.nonnil == nil {
+				st.nonnil = map[string]bool{}
+			}
+			st.nonnil[v.T.S] = true
+		}
 		f.env[p] = v
 	}
 	if hook := w.preHooks[ct.FullName()]; hook != nil {
